@@ -21,9 +21,9 @@ import vlib
 from gen import coverage as G
 
 ID = "C05"
-PROPS = ["IsoVerif/Props/C05.lean", "IsoVerif/Props/C05Multi.lean"]
-TARGETS = ["IsoVerif.Props.C05", "IsoVerif.Props.C05Multi"]
-GEN_DEPS = ["Prims", "Constants", "Enums", "EventClasses"]
+PROPS = ["IsoVerif/Props/C05.lean", "IsoVerif/Props/C05Multi.lean", "IsoVerif/Props/C05Printers.lean"]
+TARGETS = ["IsoVerif.Props.C05", "IsoVerif.Props.C05Multi", "IsoVerif.Props.C05Printers"]
+GEN_DEPS = ["Prims", "Constants", "Enums", "EventClasses", "PrinterTables"]
 LEVEL = "proof"
 RULE = ("synthetic coverage dictionaries (bin counts 1..520 around the 128-bin minimum, thresholds at the 1 % boundary, "
         "final-bin valleys, malformed dictionaries) through split_coverage_regions; alignment sets (adjacency boundaries, "
@@ -488,6 +488,10 @@ def correspondence(ctx):
     # 7. experiments made of several BAM files (Model/RegionsMulti.lean)
     from props import C05multi
     C05multi.correspondence(ctx)
+    # 8. the read-level printers and the merge of their per-chromosome files (Props/C05Printers.lean): the real
+    #    composite printer on generated records, the generated event-name table, merge_files (props/C15print.py)
+    from props import C15print
+    C15print.correspondence(ctx)
 
 
 def _first_cluster(alns):
@@ -792,6 +796,9 @@ def oracle(ctx, disagreements, broken):
     rng = ctx.rng
     quick = ctx.tier == "quick"
     n_cases = 0
+    # 0. `merged_hash_witness` (Props/C05Printers.lean) replayed on the real merge_files and the real command line
+    from props import C15print
+    C15print.oracle(ctx)
     # 1. seeded with the disagreeing inputs
     for d in disagreements[:40]:
         inp = d["input"]
